@@ -49,7 +49,7 @@ def run(res, tier, seed, replay):
         case = dict(form=form, target=a["rust"], fake=b["rust"])
         distinct.add((form, a["feature"], b["feature"], got))
         if lifetime_only: lifetime_pairs.append(dict(case, outcome=got)); return
-        if got == "M": res.violation("a refused installation modified the target's bytes", case, got)
+        if got == "M": res.violation("a refused installation modified the target's bytes or had already begun when it was refused (executable mmap / mprotect / __clear_cache calls were made on its behalf before the refusal)", case, got)
         elif got == "R": res.violation("an accepted installation was not restored", case, got)
         elif got == "A" and want != "A": res.violation("a replacement of a structurally different type was ACCEPTED", case, f"observed {got}, identical spelling required")
         elif got != want: res.violation(f"identical types refused, or the refusal is not a signature-mismatch panic: observed {got}, expected {want}", case, got)
